@@ -23,6 +23,9 @@ Streams (model `Wpull.Url` vs the real code in ctx.repo):
   itemsession  the real ItemSession (add_url / add_child_url / set_status / skip / finish) on a real in-memory SQLite URL table: each
            unparseable link is offered 2-3 times within and across item sessions of one process, flush included: add never raises,
            nothing unparseable is queued, the flush never raises, the good links are stored
+  non-network / normalize  texts without a network scheme (data:, javascript:, mailto:, about:, tel: … in any case, with surrounding white
+           space) through URLInfo.parse, parse_url_or_log and wpull.url.normalize: the result is a URLInfo (a str for normalize) or a
+           ValueError - never None, never another exception
   scrape   the consumer of the logging variant: the real ProcessingRule.scrape_document / _process_scrape_info (real FetchRule,
            real URLRewriter with every option combination incl. none, stub ItemSession table and scraper result) on link lists
            mixing parseable links with every class of unparseable one: never raises, unparseable skipped, parseable queued
@@ -769,6 +772,8 @@ def _replay(ctx, wu, case):
     if s in ('parse', 'orlog'):
         uc.replay_history(wu, case)
         batch(ctx, wu, [uc.case_of_json(case)], op=s)
+    elif s == 'normalize':
+        uc.stream_normalize(ctx, wu, [uc.case_of_json(case)])
     elif s == 'longrun':
         uc.replay_longrun(ctx, wu, case)
     elif s == 'pct':
@@ -837,6 +842,10 @@ def run(ctx):
     for level in uc.LEVELS:
         rs(ctx, 'loglevel-parse', lambda: batch(ctx, wu, [uc.Case(c.url, c.ds, c.encoding, c.kind) for c in same]), level=level)
         rs(ctx, 'loglevel-orlog', lambda: batch(ctx, wu, [uc.Case(c.url, 'http', c.encoding, c.kind) for c in same[::2]], op='orlog'), level=level)
+    nn = uc.non_network_cases(ctx.subrng('nonnet'), ctx.scale(600, 8000))
+    by_level('non-network', nn, lambda part: batch(ctx, wu, part))
+    by_level('non-network-orlog', [uc.Case(c.url, 'http', c.encoding, c.kind) for c in nn], lambda part: batch(ctx, wu, part, op='orlog'))
+    by_level('normalize', nn + same[::3], lambda part: uc.stream_normalize(ctx, wu, part))
     rs(ctx, 'pct256', lambda: uc.stream_pct256(ctx, wu))
     rs(ctx, 'int', lambda: uc.stream_int(ctx, ctx.scale(3000, 60000), ctx.subrng('int')))
     sweep = uc.byte_sweep_cases()
